@@ -20,8 +20,14 @@ pub fn run(args: &[String]) {
     let fonts = corpus_fonts(&repo_root());
     let path = fonts.iter().find(|p| p.ends_with("TestGSUBThree.ttf")).cloned().unwrap_or_else(|| fonts[0].clone());
     let data = std::fs::read(&path).expect("font");
-    let face = rustybuzz::Face::from_slice(&data, 0).expect("face");
+    let face_gsub = rustybuzz::Face::from_slice(&data, 0).expect("face");
+    // every other history on a font with positioning tables (GPOS + kern): in-place passes leave the cursor at the end of
+    // the buffer, so what clear() does to it shows
+    let path2 = fonts.iter().find(|p| p.ends_with("PT_Sans-Caption-Web-Regular.ttf")).cloned().unwrap_or_else(|| path.clone());
+    let data2 = std::fs::read(&path2).expect("font");
+    let face_pos = rustybuzz::Face::from_slice(&data2, 0).expect("face");
     for h in 0..n {
+        let face = if h % 2 == 1 { &face_pos } else { &face_gsub };
         println!("hist {}", h);
         let mut ub = UnicodeBuffer::new();
         let steps = r.range(2, 7);
@@ -45,7 +51,7 @@ pub fn run(args: &[String]) {
                 }
                 println!("push {} => {}", k2, fmt(unicode_state(&ub)));
             }
-            let gb = rustybuzz::shape(&face, &[], ub);
+            let gb = rustybuzz::shape(face, &[], ub);
             println!("shape => {}", fmt(glyph_state(&gb)));
             ub = gb.clear();
             println!("clear => {}", fmt(unicode_state(&ub)));
